@@ -13,6 +13,62 @@ COMMON_ASSUMPTIONS = [
 ]
 
 PROPS = {
+    "C13": {
+        "level": "translation_validation",
+        "candidates": families.corpus_c13,
+        "defaults": {"kind": "fresh", "builds": BUILDS2, "modes": ["full"]},
+        "keep_fail": 3,
+        "what": "closed clause per program: the signal given to every untyped declared value is no wildcard, not signal-W, not a signal the source writes explicitly, and typed values appear under exactly their name; solver clause: the program and its twin in which every untyped input has a fresh explicit type agree on every (explicitly projected) output and entity condition for ALL inputs",
+        "bounds": "up to 45 untyped values per program (more than the 26 letters), explicit use of first letters / digits / items; outputs projected onto explicit signals",
+    },
+    "C15": {
+        "level": "translation_validation",
+        "candidates": families.corpus_c15,
+        "defaults": {"kind": "stateless", "builds": BUILDS2, "modes": ["full"], "places": True},
+        "keep_fail": 3,
+        "what": "for ALL inputs the blueprint of a program with calls equals the generator's own call-by-substitution interpreter (parameters bound to argument values, fresh locals per call, return expression in place) on every output and entity condition; placed entities as a multiset; local memories per call site by K-step BMC",
+        "bounds": "<= 3 call sites, nesting depth 2, int/Signal/Entity parameters, K = 3 for the memory case",
+    },
+    "C16": {
+        "level": "translation_validation",
+        "candidates": families.corpus_c16,
+        "defaults": {"kind": "stateless", "builds": BUILDS2, "modes": ["full"], "places": True},
+        "keep_fail": 3,
+        "what": "for ALL inputs the blueprint of a program with loops equals the generator's own unrolling (a, a+s, ... strictly before b; listed values) on every entity condition and output; the multiset of placed entities equals the unrolled one (closed clause)",
+        "bounds": "ranges within [-6, 10], steps within +-3, nesting <= 3, list iterators <= 4 values",
+    },
+    "C10": {
+        "level": "translation_validation",
+        "candidates": families.corpus_c10,
+        "defaults": {"kind": "equiv", "builds": BUILDS2},
+        "keep_fail": 3,
+        "what": "equivalence of two blueprints of the same source (optimised vs --no-optimize): for ALL inputs every common named output (all signals of the universe for bundles) and every entity condition agree; for stateful programs for all K-step input histories the values at the end of every held step agree",
+        "bounds": "programs of the C01/C02/C03/C05/C06 families plus optimisation-targeted fixed programs (duplicate sub-expressions differing in mode/type/order, folded constants in every consumer kind, fan-out 2..12); K = 4 steps for stateful programs",
+    },
+    "C12": {
+        "level": "translation_validation",
+        "candidates": families.corpus_c12,
+        "defaults": {"kind": "equiv", "builds": BUILDS2, "acceptance_must_agree": False},
+        "keep_fail": 3,
+        "what": "for programs P and Q with disjoint names compiled together (order-preserving interleavings): for ALL inputs of P and of Q the outputs and entity conditions of P in build(P||Q) equal those of build(P), and likewise for Q (so no output of one depends on any input of the other)",
+        "bounds": "pairs from the C01/C02/C03/C06 families with overlapping explicit signal names and constants, user entities 9 tiles apart; 3 interleavings (quick) / 6 (thorough) x 2 builds; K = 3 steps for memory pairs",
+    },
+    "C20": {
+        "level": "translation_validation",
+        "candidates": families.corpus_c20,
+        "defaults": {"kind": "stateless", "builds": BUILDS2, "modes": ["full"], "naming": True},
+        "keep_fail": 3,
+        "what": "solver part: at the anchor labelled n the result's own signal (each member for a bundle) equals the reference value of n for ALL inputs, keyed by every top-level unconsumed name the generator knows; closed part per program: exactly one wired empty anchor per unconsumed name (or a labelled constant producer), none for consumed names, producer description carries name and source line, inputs labelled with name and value",
+        "bounds": "as C01/C02 plus alias / CSE-duplicate / function-return / memory-read outputs; unconsumed-name bookkeeping is the generator's own",
+    },
+    "C06": {
+        "level": "translation_validation",
+        "candidates": families.corpus_c06,
+        "defaults": {"kind": "stateless", "builds": BUILDS2, "modes": ["full"]},
+        "keep_fail": 3,
+        "what": "all int32 input valuations and all non-negative contents of every entity read through .output: the circuit condition of the entity at the user tile, evaluated on the networks wired to it, is true exactly when the assigned expression is positive (circuit_enabled must be set); named outputs as in C01/C02",
+        "bounds": "1-5 entities per program, enable expression depth <= 2, entity contents: one fresh non-negative value per signal of the universe",
+    },
     "C05": {
         "level": "model_checking",
         "candidates": families.corpus_c05,
